@@ -7,7 +7,7 @@ ASSUMPTIONS = [
     "reports about a tracked order carry the quantity of the request (the execution manager copies it)",
     "equal exchange timestamps: the spec allows keeping or replacing (DESIGN 5.4)",
     "a stale 'open' report with nothing left to fill may be ignored or may untrack the order",
-    "client order ids are unique across instruments (engine mode places c1,c2 on instrument 0 and c3 on instrument 2)",
+    "client order ids are unique across instruments (engine mode places c1 on instrument 0, c2 on instrument 1 (one exchange) and c3 on instrument 2 (another exchange))",
 ]
 
 
